@@ -1080,7 +1080,7 @@ def is1(F, R):
     R.require(n >= 1, None, "mount-assign", "mount does not initialise free_clusters_count from the info sector")
 
 
-@rule("IS2", ["C16", "C02"], floor=4,
+@rule("IS2", ["C16", "C02", "C01", "C04", "C09"], floor=4,
       doc="update_info_sector writes count.to_le_bytes() at [488..492] and next.0.to_le_bytes() at [492..496] of read_mut(info_location) and writes back; flush_file (dirty) and close_volume call it")
 def is2(F, R):
     fn = F.fn(FATVOL + "::update_info_sector")
@@ -1096,7 +1096,13 @@ def is2(F, R):
                     got[fld] = (rng["$a"][1], rng["$b"][1])
     R.require(got == want, fn, "offsets", "info-sector fields written at %s, FAT spec (FSI_Free_Count, FSI_Nxt_Free) says %s" % (got, want), fn.loc(0))
     rms = [(b, t) for b, t in fn.calls() if call_matches(t, ("BlockCache::read_mut",))]
-    R.require(len(rms) == 1 and "info_location" in tstr(fn.term_of_operand(rms[0][1]["args"][1], rms[0][0])), fn, "location", "info sector must be read at fat32_info.info_location", fn.loc(0))
+    okloc = False
+    if len(rms) == 1:
+        from .poly import nkey
+        k = nkey(fn.term_of_operand(rms[0][1]["args"][1], rms[0][0]))
+        # exactly the stored (absolute, validated at mount: MT5) location - no offset added or removed
+        okloc = isinstance(k, tuple) and k[0] == "place" and "info_location" in [e for e in k[2] if isinstance(e, str)][-1:]
+    R.require(okloc, fn, "location", "the info sector must be read-modified-written at exactly fat32_info.info_location (an absolute block number, the one validated at mount); got %s" % (tstr(fn.term_of_operand(rms[0][1]["args"][1], rms[0][0]))[:160] if rms else None), fn.loc(0))
     for nm in ("flush_file", "close_volume"):
         f = F.fn(VM + "::" + nm)
         sites = [b for b, t in f.calls() if call_matches(t, ("FatVolume::update_info_sector",))]
